@@ -84,12 +84,12 @@ ENGINES = {
               'util/hexify.c', 'util/asprintf.c', 'util/insecure_memzero.c', 'util/warnp.c',
               'crypto/crypto_aes.c', 'crypto/crypto_aesctr.c'],
         inc=['aws', 'alg', 'util', 'crypto', 'cpusupport', '.'],
-        wrap=['time', 'fopen', 'fclose'] + ALLOC_WRAPS,
+        wrap=['time', 'fopen'] + ALLOC_WRAPS,
         libs=['-lcrypto'],
         props=['C19', 'C20'],
         real='aws_sign.c aws_readkeys.c sha256.c sha1.c md5.c hexify.c asprintf.c crypto_aes.c crypto_aesctr.c '
              'insecure_memzero.c',
-        stub='time(3), fopen/fclose (scripted fopencookie stream), allocator',
+        stub='time(3), fopen (scripted fopencookie stream incl. read errors and failing close), allocator',
     ),
 }
 
